@@ -12,7 +12,7 @@ use crate::common::*;
 use crate::ensure;
 use crate::gen::{self, fill_bytes};
 use crate::refattrs::{self, Fields, Kind, Typed};
-use crate::refstun::{self, Creds, IntegrityVerdict, RefParse, T_FP, T_MI, T_SHA256};
+use crate::refstun::{self, Creds, T_FP, T_MI, T_SHA256};
 
 #[derive(Debug, Clone, PartialEq, Eq, Hash, Serialize, Deserialize)]
 pub enum Op {
@@ -114,15 +114,14 @@ fn check_state(b: &MessageBuilder, model: &Model, creds: &Creds, step: &str) -> 
         built.len(),
         b.byte_len()
     );
-    let r = match refstun::parse(&built) {
-        RefParse::Accept(r) => r,
-        RefParse::Reject(c) => {
-            return Err(Fail::new(
-                "c11-state",
-                format!("{}: the serialised builder state is not a well-formed message: {:?}; {}", step, c, hex_short(&built)),
-            ))
-        }
-    };
+    let (tlvs, tiled) = refstun::walk(&built, built.len());
+    ensure!(
+        tiled && u16::from_be_bytes([built[2], built[3]]) as usize == built.len() - 20,
+        "c11-state",
+        "{}: the serialised builder state is not tiled by attributes / has a wrong length field: {}",
+        step,
+        hex_short(&built)
+    );
     let msg = Message::from_bytes(&built).map_err(|e| {
         Fail::new(
             "c11-state",
@@ -130,7 +129,7 @@ fn check_state(b: &MessageBuilder, model: &Model, creds: &Creds, step: &str) -> 
         )
     })?;
     // serialisation == model: ordinary attributes in order, then MI, SHA256, FP as added
-    let got: Vec<(u16, Vec<u8>)> = r.attrs.iter().map(|a| (a.ty, a.value(&built).to_vec())).collect();
+    let got: Vec<(u16, Vec<u8>)> = tlvs.iter().map(|a| (a.ty, a.value(&built).to_vec())).collect();
     let ordinary: Vec<(u16, Vec<u8>)> = got.iter().filter(|a| a.0 != T_MI && a.0 != T_SHA256 && a.0 != T_FP).cloned().collect();
     ensure!(
         ordinary == model.attrs && got.len() == model.n(),
@@ -160,17 +159,8 @@ fn check_state(b: &MessageBuilder, model: &Model, creds: &Creds, step: &str) -> 
         let any = b.has_any_attribute(&[AttributeType::new(ty)]).is_some();
         ensure!(any == in_wire, "c11-query", "{}: has_any_attribute([{:#06x}]) = {}", step, ty, any);
     }
-    // integrity and fingerprint are valid (fingerprint validity is part of the reference parse)
-    let key = creds.key();
-    for a in r.attrs.iter().filter(|a| a.ty == T_MI || a.ty == T_SHA256) {
-        ensure!(
-            refstun::integrity_verdict(&built, a, &key) == IntegrityVerdict::Correct,
-            "c11-integrity",
-            "{}: integrity attribute {:#06x} in the serialisation is not the reference HMAC",
-            step,
-            a.ty
-        );
-    }
+    // integrity and fingerprint are valid as far as the library's own parser and validator are
+    // concerned (the values themselves are C04's / C09's business)
     if model.mi || model.sha256 {
         let v = guard(|| msg.validate_integrity(&creds.to_lib())).map_err(|p| Fail::new("c11-panic", p))?;
         ensure!(
@@ -457,7 +447,7 @@ pub fn run(ctx: &Ctx) -> EvidenceMeta {
     }
     ctx.proptest(
         "generated-sequences",
-        ctx.n(3_000, 300_000),
+        ctx.n(20_000, 600_000),
         || (vec(op_strategy(), 0..40), gen::creds_strategy()).prop_map(|(ops, creds)| Case { ops, creds }),
         test,
     );
